@@ -64,24 +64,31 @@ def apeFile : Bytes :=
 def apeNew : Option (Bytes × Bytes × Bytes) :=
   some (Ape.headerOrFooter 37 1 (Ape.hasHeader + Ape.isHeader), [0, 0, 0, 0, 0], Ape.headerOrFooter 37 1 Ape.hasHeader)
 
-/-- an IOError at call 6 (`seek(metadata + 8)` of `__fill_missing`) leaves as MutagenError, file untouched -/
-example : (saveM 4 apeNew { failAt := fun i => if i = 6 then some .io else none } { data := apeFile }).1 = .error .mutagen ∧
-    (saveM 4 apeNew { failAt := fun i => if i = 6 then some .io else none } { data := apeFile }).2.data = apeFile := by
+/-- an IOError at call 8 (`seek(metadata + 8)` of `__fill_missing`) leaves as MutagenError, file untouched -/
+example : (saveM 4 apeNew { failAt := fun i => if i = 8 then some .io else none } { data := apeFile }).1 = .error .mutagen ∧
+    (saveM 4 apeNew { failAt := fun i => if i = 8 then some .io else none } { data := apeFile }).2.data = apeFile := by
+  decide +kernel
+
+/-- so does one at call 2, the `seek(0, 2)` that opens `__find_metadata` (it stands in front of the `try`) -/
+example : (saveM 4 apeNew { failAt := fun i => if i = 2 then some .io else none } { data := apeFile }).1 = .error .mutagen ∧
+    (saveM 4 apeNew { failAt := fun i => if i = 2 then some .io else none } { data := apeFile }).2.data = apeFile := by
   decide +kernel
 
 /-- an IOError at call 1 (`verify_fileobj`) leaves as ValueError -/
 example : (saveM 4 apeNew { failAt := fun i => if i = 1 then some .io else none } { data := apeFile }).1 = .error .value := by
   decide +kernel
 
-/-- THE SWALLOWED FAULT: an IOError at call 2 (`seek(-32, 2)` of `__find_metadata`) is taken for "file too small":
-`delete` returns normally and the tag is still there … -/
-example : (deleteM 4 { failAt := fun i => if i = 2 then some .io else none } { data := apeFile }).1 = .ok () ∧
-    (deleteM 4 { failAt := fun i => if i = 2 then some .io else none } { data := apeFile }).2.data = apeFile := by
+/-- THE SWALLOWED FAULT: an IOError at call 3 or 4 (the `tell()` and the `seek(-32, 1)` of `_seek_back(fileobj, 32)` in
+`__find_metadata`) is taken for "file too small": `delete` returns normally and the tag is still there … -/
+example : (deleteM 4 { failAt := fun i => if i = 3 then some .io else none } { data := apeFile }).1 = .ok () ∧
+    (deleteM 4 { failAt := fun i => if i = 3 then some .io else none } { data := apeFile }).2.data = apeFile ∧
+    (deleteM 4 { failAt := fun i => if i = 4 then some .io else none } { data := apeFile }).1 = .ok () ∧
+    (deleteM 4 { failAt := fun i => if i = 4 then some .io else none } { data := apeFile }).2.data = apeFile := by
   decide +kernel
 
 /-- … and `save` returns normally with the new tag appended behind the old one -/
-example : (saveM 4 apeNew { failAt := fun i => if i = 2 then some .io else none } { data := apeFile }).1 = .ok () ∧
-    (saveM 4 apeNew { failAt := fun i => if i = 2 then some .io else none } { data := apeFile }).2.data = apeFile ++ tagBytes apeNew := by
+example : (saveM 4 apeNew { failAt := fun i => if i = 3 then some .io else none } { data := apeFile }).1 = .ok () ∧
+    (saveM 4 apeNew { failAt := fun i => if i = 3 then some .io else none } { data := apeFile }).2.data = apeFile ++ tagBytes apeNew := by
   decide +kernel
 
 /-- without faults `delete` leaves the audio -/
